@@ -858,12 +858,18 @@ class LoaderGen:
 
     def __init__(self, rng):
         self.rng = rng
+        self.tabs = False
 
     def unit(self):
-        return self.rng.choice(['    ', '    ', '  ', '\t', '   '])
+        # one indentation character per module (mixing tabs and spaces inside one function is the documented
+        # explicit error of dedent_block, exercised elsewhere)
+        if self.tabs:
+            return self.rng.choice(['\t', '\t', '\t\t'])
+        return self.rng.choice(['    ', '    ', '  ', ' ', '   '])
 
     def dmod(self):
         r = self.rng
+        self.tabs = r.random() < 0.25
         L = ['# decorator module', 'import functools', 'LOG = []', '']
         u = self.unit()
         L += ['def plain(f):', u + 'return f', '']
@@ -901,6 +907,7 @@ class LoaderGen:
 
     def umod(self, dname):
         r = self.rng
+        self.tabs = r.random() < 0.25
         L = ['# user module', 'import %s as D' % dname, 'REG = []', '']
         names = ['area', 'volume', 'ratio', 'scale', 'norm', 'clip']
         r.shuffle(names)
